@@ -1327,6 +1327,13 @@ pub fn combo_transforms() -> Vec<(&'static str, fn(&mut PProblem))> {
             }
         }),
         // last: the first shift of type a as it is now gets a twin later in the day
+        // vicinity clustering over the whole plan (d1/d4 and d2/p0 share a location, every neighbour is within the threshold)
+        ("cluster", |p| {
+            p.clustering = Some(json!({
+                "type": "vicinity", "profile": {"matrix": "car"}, "threshold": {"duration": 30.0, "distance": 60.0},
+                "visiting": "continue", "serving": {"type": "original", "parking": 2.0},
+            }))
+        }),
         ("two-shifts", |p| {
             let mut s = p.vehicles[0].shifts[0].clone();
             if let Some(end) = p.vehicles[0].shifts[0].end.as_mut() {
